@@ -19,6 +19,10 @@ from .spec import SpecError
 
 REL = {'<': '<=', '<=': '<', '>': '>=', '>=': '>', '==': '!=', '!=': '=='}
 ARITH = {'+': '-', '-': '+'}
+PAIRS = {'from': 'to', 'to': 'from', 'infd': 'outfd', 'outfd': 'infd', 'src': 'dest', 'source': 'dest', 'reader': 'writer', 'writer': 'reader',
+         'next_data': 'next_hole', 'next_hole': 'next_data'}
+METHODS = {'write_all': 'write', 'exists': 'is_file', 'metadata': 'symlink_metadata', 'symlink_metadata': 'metadata', 'is_err': 'is_ok', 'is_ok': 'is_err',
+           'is_dir': 'is_file', 'accessed': 'modified', 'modified': 'accessed', 'uid': 'gid', 'gid': 'uid', 'rdev': 'dev', 'set_accessed': 'set_modified'}
 
 
 def gen_mutants(G):
@@ -88,6 +92,17 @@ def gen_mutants(G):
             elif k == 'ident' and t == 'false':
                 out.append((fid, g.src_path, line, 'false -> true', s0, e0, 'true'))
                 seen.add(key)
+            elif k == 'ident' and t in PAIRS and st[i - 1][1] not in ('.', '::', 'let', 'mut', '|') and st[i + 1][1] not in (':', '=') and (g.src_path, s0, 'pair') not in seen \
+                    and any(x[1] == PAIRS[t] for x in st[b:]):
+                # the other member of a from/to-like pair is in scope in this function: use it instead (wrong-variable slip)
+                seen.add((g.src_path, s0, 'pair'))
+                out.append((fid, g.src_path, line, 'wrong variable `%s` -> `%s`' % (t, PAIRS[t]), s0, e0, PAIRS[t]))
+            elif k == 'ident' and t in ('continue', 'break') and st[i + 1][1] == ';':
+                out.append((fid, g.src_path, line, '%s -> %s' % (t, 'break' if t == 'continue' else 'continue'), s0, e0, 'break' if t == 'continue' else 'continue'))
+                seen.add(key)
+            elif k == 'ident' and t in METHODS and st[i - 1][1] == '.' and st[i + 1][1] == '(':
+                out.append((fid, g.src_path, line, 'method `%s` -> `%s`' % (t, METHODS[t]), s0, e0, METHODS[t]))
+                seen.add(key)
             elif k == 'punct' and t == ';' and st[i - 1][1] in (')', '?') and os.environ.get('AUTOMUT_DELETE', '1') == '1':
                 # statement deletion: an expression statement `CALL(..);` / `CALL(..)?;` (not a `let`, `return`, assignment or macro)
                 j = i - 1
@@ -138,7 +153,14 @@ def gen_mutants(G):
     uniq = {}
     for m in out:
         uniq.setdefault((m[1], m[4], m[5], m[6]), m)
-    return list(uniq.values())
+    # ordinal of a mutant among those with the same function and description, in textual order (part of its line-independent identity)
+    res = []
+    cnt = {}
+    for m in sorted(uniq.values(), key=lambda m: (m[1], m[4], m[5])):
+        k = (m[0], ' '.join(m[3].split()))
+        cnt[k] = cnt.get(k, 0) + 1
+        res.append(tuple(m) + (cnt[k],))
+    return res
 
 
 def _block_statements(st, open_i):
@@ -236,7 +258,7 @@ def structural_mutants(fid, g, src, st, b):
 
 
 def run_one(m, known):
-    fid, path, line, desc, s0, e0, rep = m
+    fid, path, line, desc, s0, e0, rep = m[:7]
     wd = tempfile.mkdtemp(prefix='xcpverif-am-')
     try:
         thorough.copy_sources(wd)
@@ -265,7 +287,7 @@ EQUIV = os.path.join(VERIF, 'mutants', 'automut_equivalent.json')
 
 def mkey(m):
     """identity of a mutant that survives line moves: function + operator description"""
-    return '%s | %s' % (m[0], ' '.join(m[3].split()))
+    return '%s | %s | #%d' % (m[0], ' '.join(m[3].split()), m[7] if len(m) > 7 else 1)
 
 
 def load_equivalent():
@@ -341,7 +363,7 @@ def main(argv):
     print('automut: %d mutants in %.0fs: %s' % (len(ms), time.time() - t0, tally))
     for m, status, info in sorted(results, key=lambda r: (r[1], r[0][1], r[0][2])):
         if status != 'killed':
-            print('%-9s %-40s %s:%d  %s  %s' % (status, m[0], m[1], m[2], ' '.join(m[3].split()), info))
+            print('%-9s %-40s %s:%d  %s  #%d  %s' % (status, m[0], m[1], m[2], ' '.join(m[3].split()), m[7], info))
     return 0
 
 
